@@ -353,11 +353,14 @@ func (t *T) fail(desc string, f *Fail, recheck func() *Fail) {
 		for i := 0; i < 5; i++ {
 			g := t.safe(recheck)
 			if g == nil {
-				// the same case passed on a re-run: not a believable violation but an
-				// infrastructure error (uncaptured nondeterminism)
+				// The same case passed on a re-run. The harness feeds every case the same inputs
+				// (no clocks, no shared harness state; the unchanged tree has never shown this), so
+				// the library's answer depends on something that outlives a case: a process-wide
+				// cache, pool or default that an earlier case left in another state. The observed
+				// failure stands as a violation; the note tells the reader that replaying this case
+				// alone may pass.
 				t.r.mu.Lock()
-				t.r.diverged = append(t.r.diverged, fmt.Sprintf("%s case=%q: first run failed with %q, re-run %d passed", sig, desc, f.Sig, i))
-				delete(t.r.violations, sig)
+				v.Detail += fmt.Sprintf("\n(note: observed once; re-run %d of the same case passed - the outcome depends on state that outlives a case, e.g. a process-wide cache, pool or default value inside the library)", i)
 				t.r.mu.Unlock()
 				return
 			}
